@@ -94,6 +94,7 @@ type engine struct {
 	stuckBy string // who else, besides the generated subscribers, takes messages from this server
 	// statistics
 	mixed, errd, overflow, cut int
+	timeEq                     int // definite matches that rest on a time equality across different spellings
 	baseBlocked                int
 }
 
@@ -386,6 +387,9 @@ func (e *engine) publish(events map[string][]string, check func(interface{}) err
 			continue
 		}
 		verdicts[i] = s.q.eval(events)
+		if verdicts[i] == triT && s.q.equalInstantOtherSpelling(events) {
+			e.timeEq++
+		}
 		switch verdicts[i] {
 		case triT:
 			nT++
